@@ -26,6 +26,7 @@ pub fn program_key(p: &Program) -> String {
         v.push(0);
     }
     v.push(p.annotate as u8);
+    v.extend_from_slice(p.path_mode.as_bytes());
     digest(&v)
 }
 
@@ -782,6 +783,10 @@ pub fn run_check(tier_name: &str, seed: u64, verif_dir: &str) -> Outcome {
         tries += 1;
         let annotate = crng.chance(1, 2);
         let mut p = corpus::random_composition(&samples, &mut crng, annotate);
+        // the API also allows sources without a display path, or with the same one
+        if p.files.len() > 1 && crng.chance(1, 3) {
+            p.path_mode = if crng.chance(1, 2) { "none".into() } else { "same".into() };
+        }
         p.features = corpus::features_of(&p.files, &builtins);
         if p.features.iter().any(|f| fenced.contains(f)) {
             fenced_skipped += 1;
@@ -818,7 +823,7 @@ pub fn run_check(tier_name: &str, seed: u64, verif_dir: &str) -> Outcome {
         tries += 1;
         let annotate = grng.chance(1, 2);
         let files = gen::generate(&mut grng, &fenced);
-        let mut p = Program { files, annotate, features: vec![], label: format!("generated#{tries}") };
+        let mut p = Program { files, annotate, features: vec![], label: format!("generated#{tries}"), path_mode: String::new() };
         p.features = corpus::features_of(&p.files, &builtins);
         if p.features.iter().any(|f| fenced.contains(f)) {
             fenced_skipped += 1;
@@ -828,6 +833,23 @@ pub fn run_check(tier_name: &str, seed: u64, verif_dir: &str) -> Outcome {
         configs.push(tier.gen_configs);
         kinds.push("generated");
         made += 1;
+    }
+    // generated programs with a type error appended: long rejected programs (a checker that
+    // leaks something on its error path leaks more the later the error comes)
+    {
+        let gen_idx: Vec<usize> = (0..programs.len()).filter(|&i| kinds[i] == "generated").collect();
+        for (k, &i) in gen_idx.iter().enumerate() {
+            if k % 6 == 0 {
+                let mut p = programs[i].clone();
+                for f in p.files.iter_mut() {
+                    f.text.push_str("def zzbad9: Int := \"not an int\"\n");
+                }
+                p.label = format!("{} + type error", p.label);
+                programs.push(p);
+                configs.push(2);
+                kinds.push("generated_faulted");
+            }
+        }
     }
     // corpus samples that carry a fenced feature are represented by the witness only
     let mut fenced_corpus = 0;
@@ -865,6 +887,46 @@ pub fn run_check(tier_name: &str, seed: u64, verif_dir: &str) -> Outcome {
         .map(|(i, &k)| if programs[i].features.iter().any(|f| fenced.contains(f)) { 0 } else { k })
         .collect();
     let scenarios = build_scenarios(seed, &programs, &active_configs, &mut rng.fork(3));
+    // "marathons": one long-lived thread that transpiles a long sequence of mostly REJECTED
+    // programs — state that accumulates over many calls (a leaked counter, a growing table)
+    // needs a long history to matter
+    let mut scenarios = scenarios;
+    {
+        let mut mrng2 = rng.fork(5);
+        let (n_marathons, len) = if tier.name == "thorough" { (24usize, 500usize) } else { (6usize, 160usize) };
+        let n_marathons = envnum("VERIF_C12_MARATHONS", n_marathons);
+        let len = envnum("VERIF_C12_MARATHON_LEN", len);
+        let rejected: Vec<usize> = (0..programs.len()).filter(|&i| active_configs[i] > 0 && ref_results[i].0.verdict == "err").collect();
+        let any: Vec<usize> = (0..programs.len()).filter(|&i| active_configs[i] > 0).collect();
+        if !any.is_empty() {
+            for _ in 0..n_marathons {
+                let mut local: Vec<usize> = vec![];
+                let mut idx_of: BTreeMap<usize, usize> = BTreeMap::new();
+                let mut schedule = vec![];
+                for _ in 0..len {
+                    let p = if !rejected.is_empty() && mrng2.chance(7, 10) { *mrng2.pick(&rejected) } else { *mrng2.pick(&any) };
+                    let li = *idx_of.entry(p).or_insert_with(|| {
+                        local.push(p);
+                        local.len() - 1
+                    });
+                    schedule.push(Round { jobs: vec![Job { thread: 0, program: li, measured: true, perturb: vec![] }], interleave_seed: 0, switch_permille: 0 });
+                }
+                scenarios.push(C12Scenario {
+                    property: "C12".into(),
+                    seed,
+                    index: scenarios.len() as u64,
+                    programs: local.iter().map(|&p| programs[p].clone()).collect(),
+                    threads: vec![ThreadCfg { hash_seed: mrng2.next(), readdir_seed: 0 }],
+                    env: BTreeMap::new(),
+                    cwd: "/".into(),
+                    clock: CANON_CLOCK,
+                    pid: CANON_PID,
+                    schedule,
+                    expect: None,
+                });
+            }
+        }
+    }
     let results: Vec<JobsResult> = par_map(&scenarios, w, |_, sc| run_scenario(sc));
 
     // ---- compare
@@ -1019,8 +1081,10 @@ pub fn run_check(tier_name: &str, seed: u64, verif_dir: &str) -> Outcome {
             "verdicts": verdicts,
             "distinct_hash_orders": orders.len(),
             "jobs_with_earlier_jobs_in_process": with_history,
+            "longest_history_of_one_thread": scenarios.iter().map(job_count).max().unwrap_or(0),
             "jobs_in_concurrent_rounds": concurrent_jobs,
             "interleaving_switches": switches,
+            "threads_created_by_the_code_under_test": results.iter().map(|r| r.lib_threads).sum::<u64>(),
             "distinct_interleavings": interleavings.len(),
             "outputs_with_rendered_union": unions,
             "perturbations_fired": perturb_fired,
